@@ -1373,7 +1373,8 @@ class LangServer:
             # Update file contents with changes
             reparse_req = True
             if self.sync_type == 1:
-                file_obj.apply_change(params["contentChanges"][0])
+                # Whole documents: the last one sent is the text the client holds
+                file_obj.apply_change(params["contentChanges"][-1])
             else:
                 try:
                     reparse_req = False
